@@ -48,6 +48,7 @@ type T struct {
 }
 
 type assumeFalse struct{}
+type stopReplay struct{}
 type replayMismatch struct{ msg string }
 
 var registry = map[string]func(*T){}
@@ -57,6 +58,10 @@ func Register(name string, f func(*T)) { registry[name] = f }
 
 func (t *T) next(kind, tag string) int64 {
 	if t.pos >= len(t.inputs) {
+		if len(t.Failed) > 0 {
+			// the engine stopped recording at the violated assertion
+			panic(stopReplay{})
+		}
 		panic(replayMismatch{fmt.Sprintf("replay ran out of inputs at %s %q", kind, tag)})
 	}
 	in := t.inputs[t.pos]
@@ -126,6 +131,13 @@ func (t *T) TimeAgo(tag string, maxAge time.Duration) (time.Time, time.Duration)
 	return t.start.Add(-age), age
 }
 
+// Time returns an arbitrary instant (1 ns .. 2^62 ns after the Unix epoch).
+func (t *T) Time(tag string) time.Time { return time.Unix(0, t.next("int64", tag)) }
+
+// Advance lets d pass on the model clock (native: the real clock cannot be
+// moved; harnesses keep margins instead).
+func (t *T) Advance(d time.Duration) {}
+
 // Duration returns an arbitrary duration in [lo,hi].
 func (t *T) Duration(tag string, lo, hi time.Duration) time.Duration {
 	return time.Duration(t.next("int64", tag))
@@ -171,6 +183,7 @@ func RunReplayFile(path string) string {
 			}
 			if x := recover(); x != nil {
 				switch x := x.(type) {
+				case stopReplay:
 				case assumeFalse:
 					verdict = "REPLAY-MISMATCH an assumption is false under the solver's values"
 				case replayMismatch:
